@@ -389,3 +389,144 @@ Theorem C06_codegen_simulates_int_example_runs :
   fst (run_x86 10 1000 ex_code [10]) = ([(true, 20)], OUndef "div0"%string).
 Proof. exact ex_runs. Qed.
 Print Assumptions C06_codegen_simulates_int_example_runs.
+
+
+(* ======================================================================================== *)
+(* Closures without captured variables: create / invoke (the closure fragment)               *)
+(* ======================================================================================== *)
+From SCC Require Import Proof.X86SimAddr Proof.X86SimClo Proof.X86SimProgC Proof.X86SimTopC Proof.X86SimExampleC.
+Open Scope list_scope.
+
+(* byte addresses in the image of ANY instruction list: every placed instruction has an address >= CODE_BASE,
+   consecutive instructions have consecutive addresses (5 bytes for `jmp near`, 16 otherwise, 0 for labels),
+   and the address after an instruction of non-zero size maps back (index_at: what an indirect jump uses) to
+   exactly the next instruction *)
+Theorem C06_image_addresses : forall cs : list xcode, img_ok (mk_image cs).
+Proof. exact mk_image_ok. Qed.
+Print Assumptions C06_image_addresses.
+
+(* `clo_ok im p a T clauses` - what the second temporary of a closure variable points to (the CL of the
+   relation from here on): the clauses are T's destructors in declaration order; an indirect jump to a (one
+   clause) or to a + 5k (clause k through the jump table) arrives, with the state unchanged, at the code
+   generated for the body of clause k, which is linearly well-typed in the clause context and in the fragment.
+   The code a Create statement emits after its continuation (label, table of `jmp near`, clause bodies)
+   establishes it for the address of its label: *)
+Theorem C06_closure_layout :
+  forall (im : image) (p : prog), img_ok im ->
+    (forall pc a, PM.find pc (addr_of im) = Some a -> a < 4611686018427387904) ->
+  forall (pc : positive) (P : list xcode) (fresh : string) (tn : ident) (cls : list clause) (c5 : list xcode) (lc3 lc5 : N),
+    code_at im pc (P ++ ([LAB fresh] ++ table_or_nil cls fresh) ++ c5) ->
+    labels_at_nh im pc (P ++ ([LAB fresh] ++ table_or_nil cls fresh) ++ c5) ->
+    ends_nz P -> is_hash_label fresh = false ->
+    clauses_code (ptypes p) [] fresh cls lc3 = Ok (c5, lc5) ->
+    cls <> [] -> cls_ok (sigs_of p) (Decl tn) cls = true ->
+    (forall c, In c cls -> lin_check (sigs_of p) (cl_ctx c) (cl_body c) = true /\ stmt_cf (cl_body c) = true /\ ctx_cf (cl_ctx c) = true) ->
+    exists a, label_addr im fresh = Some a /\ clo_ok im p a tn cls.
+Proof. exact create_layout. Qed.
+Print Assumptions C06_closure_layout.
+
+(* Create of a closure without captured variables, ANY context: null block pointer into the first temporary
+   of the new position, the address of the closure's label into the second; the machine's new environment
+   entry VClo is represented; control continues with the code of the continuation statement *)
+Theorem C06_sim_create :
+  forall (im : image) (p : prog), img_ok im ->
+    (forall pc a, PM.find pc (addr_of im) = Some a -> a < 4611686018427387904) ->
+  forall (c : ctx) (e : env) (s : xstate) (sp : Z) (v tn : ident) (cls : list clause) (next : stmt) (lc : N)
+         (code : list xcode) (lc' : N) (pc : positive),
+    rel (clo_ok im p) c e s sp -> NoDup (ids (c ++ [mkb v Cns (Decl tn)])) ->
+    code_statement x86_backend (ptypes p) (Create v (Decl tn) (Some []) cls next) c lc = Ok (code, lc') ->
+    code_at im pc code -> labels_at_nh im pc code ->
+    is_hash_label (type_label (Decl tn) (lc + 1)%N) = false ->
+    cls <> [] -> stmt_cf next = true -> cls_ok (sigs_of p) (Decl tn) cls = true ->
+    (forall cl, In cl cls -> lin_check (sigs_of p) (cl_ctx cl) (cl_body cl) = true /\ stmt_cf (cl_body cl) = true /\ ctx_cf (cl_ctx cl) = true) ->
+    exists c12 c3 lc3 rest s',
+      code = c12 ++ c3 ++ rest /\
+      code_statement x86_backend (ptypes p) next (c ++ [mkb v Cns (Decl tn)]) (lc + 1)%N = Ok (c3, lc3) /\
+      exec_straight im c12 s = Some s' /\
+      rel (clo_ok im p) (c ++ [mkb v Cns (Decl tn)]) (e ++ [(v, VClo tn cls [])]) s' sp /\ frame_eq s s' sp.
+Proof. exact sim_create. Qed.
+Print Assumptions C06_sim_create.
+
+(* Invoke, ANY context: whether the type has one destructor (`jmp` through the temporary) or several
+   (`add temporary, 5k; jmp`, the immediate encodable because the image passes asm_wf), with the closure in a
+   register or in a spill slot, control arrives at the body of the clause the machine selects, in a state
+   related to the machine's new environment (the arguments relabelled by the clause context) *)
+Theorem C06_sim_invoke :
+  forall (im : image) (p : prog),
+    (forall pc c, PM.find pc (code im) = Some c -> instr_wf c = true) ->
+  forall (c : ctx) (e : env) (s : xstate) (sp : Z) (v tag : ident) (t : ty) (args : ctx) (code : list xcode) (lc lc' : N)
+         (pc : positive) (e0 : env) (x tn : ident) (cls : list clause) (ce : env) (cl : clause) (e1 : env),
+    rel (clo_ok im p) c e s sp ->
+    AxSem.split_last 1 e = Some (e0, [(x, VClo tn cls ce)]) -> N.eqb (idn x) (idn v) = true ->
+    find_clause cls tag = Some cl -> bind (vars (cl_ctx cl)) (map snd e0) = Some e1 ->
+    lin_check (sigs_of p) c (Invoke v tag t args) = true ->
+    code_statement x86_backend (ptypes p) (Invoke v tag t args) c lc = Ok (code, lc') -> code_at im pc code ->
+    exists pcb lcb cb lcb' s',
+      exec_to im pc s pcb s' /\
+      code_statement x86_backend (ptypes p) (cl_body cl) (cl_ctx cl) lcb = Ok (cb, lcb') /\ code_at im pcb cb /\ labels_at_nh im pcb cb /\
+      lin_check (sigs_of p) (cl_ctx cl) (cl_body cl) = true /\ stmt_cf (cl_body cl) = true /\ ctx_cf (cl_ctx cl) = true /\
+      rel (clo_ok im p) (cl_ctx cl) (e1 ++ ce) s' sp /\ frame_eq s s' sp.
+Proof. exact sim_invoke. Qed.
+Print Assumptions C06_sim_invoke.
+
+(* composition for the closure fragment (stmt_cf: the integer statements plus Create with an empty
+   environment and at least one clause, and Invoke; variables `ext i64` or `cns T`) *)
+Theorem C06_sim_exec_cf :
+  forall (im : image) (p : prog) (sp : Z),
+    img_ok im ->
+    (forall pc a, PM.find pc (addr_of im) = Some a -> a < 4611686018427387904) ->
+    (forall pc c, PM.find pc (code im) = Some c -> instr_wf c = true) ->
+    (forall d, In d (ptypes p) -> is_hash_label (label_of_type_name (show_ident (tname d))) = false) ->
+    (forall d, In d (pdefs p) ->
+       exists pcd lcd cd lcd', find_label (labels im) (show_ident (dname d) +++ "_") = Some pcd /\
+         PM.find pcd (code im) = Some (LAB (show_ident (dname d) +++ "_")) /\
+         code_statement x86_backend (ptypes p) (dbody d) (dctx d) lcd = Ok (cd, lcd') /\
+         code_at im (Pos.succ pcd) cd /\ labels_at_nh im (Pos.succ pcd) cd) ->
+    (exists pcc, find_label (labels im) "cleanup" = Some pcc /\ code_at im pcc cleanup) ->
+    (forall d, In d (pdefs p) -> lin_check (sigs_of p) (dctx d) (dbody d) = true) ->
+    (forall d, In d (pdefs p) -> stmt_cf (dbody d) = true) ->
+    forall (fuel : nat) (s : stmt) (c : ctx) (e : env) (ot : prints) (st : xstate) (pc : positive)
+           (code : list xcode) (lc lc' : N),
+      stmt_cf s = true -> lin_check (sigs_of p) c s = true ->
+      code_statement x86_backend (ptypes p) s c lc = Ok (code, lc') ->
+      code_at im pc code -> labels_at_nh im pc code ->
+      rel (clo_ok im p) c e st sp -> outer_ok st sp -> out st = ot ->
+      snd (exec_linear fuel p e s ot) <> OOutOfFuel -> finishes im pc st (exec_linear fuel p e s ot).
+Proof. exact sim_exec_cf. Qed.
+Print Assumptions C06_sim_exec_cf.
+
+(* THE PROGRAM-LEVEL THEOREM for the closure fragment: as C06_codegen_simulates_int, for programs whose
+   variables are integers or closures without captured variables and whose statements are Substitute / Call /
+   Literal / Op / PrintI64 / IfC / Exit / Create (empty environment) / Invoke (`cf_frag`), whose entry
+   definition takes integers (`entry_int`), whose definition and type names do not start with '#', linearly
+   well-typed; the emitted code passes asm_wf and is smaller than 2^62 - 2^30 bytes (`code_small`: code
+   addresses are added to table offsets in 64-bit arithmetic).  Every terminating run of the linear machine is
+   reproduced by the ISA run of the emitted code.  This is the shape of the pipeline's output for first-order
+   tail-recursive integer programs (every call passes the return continuation, a closure).
+   Missing to the full statement: closures with captured variables and data (Let / Switch): heap blocks. *)
+Theorem C06_codegen_simulates_cf :
+  forall (p : prog) (lc : N) (cs : list xcode) (n : nat) (lc' : N) (args : list Z) (fuel : nat) (o : obs),
+    cf_frag p = true -> entry_int p = true -> plain_names p = true -> plain_types p = true -> lin_check_prog p = true ->
+    x86_compile p lc = Ok (cs, n, lc') -> asm_wf cs = None -> code_small cs = true ->
+    List.length args = n ->
+    run_linear fuel p args = o -> snd o <> OOutOfFuel ->
+    exists outer inner, fst (run_x86 outer inner cs args) = o.
+Proof. exact x86_codegen_simulates_cf. Qed.
+Print Assumptions C06_codegen_simulates_cf.
+
+(* non-vacuity: a program of the pipeline's shape (main creates the return continuation and calls the
+   tail-recursive f, which finally invokes it) with a second closure of a two-destructor type entered through
+   its jump table; closures are passed along, dropped (erase of a null pointer) and kept by substitutions *)
+Theorem C06_codegen_simulates_cf_example_hypotheses :
+  cf_frag exc_prog = true /\ entry_int exc_prog = true /\ plain_names exc_prog = true /\ plain_types exc_prog = true /\
+  lin_check_prog exc_prog = true /\
+  (exists n lc', x86_compile exc_prog 0 = Ok (exc_code, n, lc')) /\ asm_wf exc_code = None /\ code_small exc_code = true.
+Proof. exact exc_hypotheses. Qed.
+Print Assumptions C06_codegen_simulates_cf_example_hypotheses.
+Theorem C06_codegen_simulates_cf_example_runs :
+  run_linear 60 exc_prog [4] = ([(false, 4); (false, 7); (false, 9); (false, 10); (true, 10)], OExit 10) /\
+  fst (run_x86 10 2000 exc_code [4]) = ([(false, 4); (false, 7); (false, 9); (false, 10); (true, 10)], OExit 10) /\
+  run_linear 60 exc_prog [-3] = ([], OExit (-21)) /\
+  fst (run_x86 10 2000 exc_code [-3]) = ([], OExit (-21)).
+Proof. exact exc_runs. Qed.
+Print Assumptions C06_codegen_simulates_cf_example_runs.
